@@ -406,6 +406,57 @@ static void many_live_case(uint64_t N, unsigned count, unsigned rep) {
   case_end(checked > 0);
 }
 
+// a DFT vector of more than 4 GiB (2050 limbs of 2 MiB at N = 65536; limb counts are not bounded by the API): the input mapping is
+// lazily backed and only four of its limbs are written (transforms of known polynomials, computed separately), so reading it
+// costs nothing; the inverse transform of limb 0, 1, 2048 and 2049 must return those polynomials (a limb offset computed in
+// 32 bits wraps exactly at limb 2048)
+#include <sys/mman.h>
+static void huge_dft_vector_case(unsigned rep) {
+  if (!case_begin("vec_znx_idft@ntt120|DFT vector of more than 4 GiB", "N=65536 limbs=2050 rep=%u", rep)) return;
+  const uint64_t N = 65536, L = 2050;
+  const MODULE* M = get_module(N, NTT120, 1);
+  const size_t dbytes = L * N * 32 + 8192, bbytes = L * N * 16 + 8192;
+  uint8_t* ad = mmap(0, dbytes, PROT_READ | PROT_WRITE, MAP_PRIVATE | MAP_ANONYMOUS | MAP_NORESERVE, -1, 0);
+  uint8_t* bg = mmap(0, bbytes, PROT_READ | PROT_WRITE, MAP_PRIVATE | MAP_ANONYMOUS | MAP_NORESERVE, -1, 0);
+  if (ad == MAP_FAILED || bg == MAP_FAILED) {
+    cnt("huge_mapping_refused", 1);
+    case_end(0);
+    return;
+  }
+  rng_t* r = crng();
+  static const uint64_t LI[] = {0, 1, 2047, 2048, 2049};
+  int64_t* pol[ARRAY_LEN(LI)];
+  void* one = aligned_alloc(64, N * 32);
+  for (size_t q = 0; q < ARRAY_LEN(LI); q++) {
+    pol[q] = malloc(N * 8);
+    for (uint64_t i = 0; i < N; i++) pol[q][i] = rng_sbits(r, 62) + (int64_t)LI[q];
+    vec_znx_dft(M, one, 1, pol[q], 1, N);
+    memcpy(ad + LI[q] * N * 32, one, N * 32);
+  }
+  uint8_t* tmp = malloc(vec_znx_idft_tmp_bytes(M) + 64);
+  vec_znx_idft(M, (VEC_ZNX_BIG*)bg, L, (const VEC_ZNX_DFT*)ad, L, tmp);
+  uint64_t bad = 0;
+  for (size_t q = 0; q < ARRAY_LEN(LI); q++) {
+    const __int128* w = (const __int128*)(bg + LI[q] * N * 16);
+    for (uint64_t i = 0; i < N; i++)
+      if (w[i] != (__int128)pol[q][i] && bad++ < 2) viol("oracle", "vec_znx_idft on an NTT120 DFT vector of 2050 limbs (4.1 GiB): output limb %" PRIu64 " coefficient %" PRIu64 " is not the polynomial whose transform was stored in input limb %" PRIu64, LI[q], i, LI[q]);
+    free(pol[q]);
+  }
+  // (the limbs in between were transforms of zero: spot-check a few)
+  for (uint64_t l = 2; l < L; l += 389) {
+    const __int128* w = (const __int128*)(bg + l * N * 16);
+    for (uint64_t i = 0; i < N; i += 997)
+      if (w[i] != 0 && bad++ < 2) viol("oracle", "vec_znx_idft on a 2050-limb NTT120 vector: output limb %" PRIu64 " should be zero", l);
+  }
+  cnt("limbs_checked_in_vectors_over_4GiB", ARRAY_LEN(LI));
+  sample("2050 limbs (4.1 GiB of transforms, lazily backed): limbs 0, 1, 2047, 2048, 2049 invert to the stored polynomials");
+  free(tmp);
+  free(one);
+  munmap(ad, dbytes);
+  munmap(bg, bbytes);
+  case_end(1);
+}
+
 void run_C03(void) {
   const int th = G.thorough;
   make_tables();
@@ -480,4 +531,5 @@ void run_C03(void) {
   // several threads creating, using and destroying their own modules / tables at the same time
   for (unsigned rep = 0; rep < (G.thorough ? 60u : 8u); rep++)
     ops_concurrent_lifecycle_case("C03 objects", LKM_MOD_NTT120 | LKM_MOD_FFT64 | LKM_NTT | LKM_INTT, (rep % 4) == 3 ? DISP_GENERIC : DISP_NATIVE, rep & 1 ? 8 : 4, 120, rep, "concurrent_lifecycle_uses");
+  for (unsigned rep = 0; rep < (G.thorough ? 2u : 1u); rep++) huge_dft_vector_case(rep);
 }
